@@ -229,7 +229,7 @@ Inductive res_rel : N * wout -> N * wres -> Prop :=
 | rr_qerr : forall k a, res_rel (k, WQErr a) (k, QErr a).
 
 Lemma spawn_loop_results : forall relay outs att rs,
-  spawn_loop relay outs = (att, Some rs) -> Forall2 res_rel outs rs.
+  spawn_loop relay outs = (att, inl rs) -> Forall2 res_rel outs rs.
 Proof.
   induction outs as [|[k o] outs IH]; intros att rs H; cbn in H.
   - injection H as <- <-. constructor.
@@ -254,7 +254,7 @@ Qed.
 
 (* ------------------------------------------------- Queue + edge, main part *)
 Lemma queue_2xx_core : forall relay bs tr0 outs att rs,
-  writes 0 bs = (tr0, Some outs) -> spawn_loop relay outs = (att, Some rs) ->
+  writes 0 bs = (tr0, Some outs) -> spawn_loop relay outs = (att, inl rs) ->
   rs <> [] -> (forall e w, In (e, w) rs -> exists i, w = Id i) ->
   all_stored_before bs tr0.
 Proof.
@@ -281,11 +281,11 @@ Lemma smtp_2xx_implies_all_stored : forall relay bs tr c,
 Proof.
   intros relay bs tr c H C2. unfold smtp_run, handoff, queue_enqueue in H.
   destruct (writes 0 bs) as [tr0 [outs|]] eqn:W.
-  - destruct (spawn_loop relay outs) as [att [rs|]] eqn:S; unfold smtp_edge in H; cbn in H.
+  - destruct (spawn_loop relay outs) as [att [rs|x]] eqn:S; unfold smtp_edge in H; cbn in H.
     + injection H as <- <-. exists tr0. split; [reflexivity|].
       destruct (smtp_2xx_results _ C2) as (Hne & Hall).
       eapply queue_2xx_core; eauto.
-    + injection H as <- <-. discriminate.
+    + destruct x; try discriminate; injection H as <- <-; discriminate.
   - unfold smtp_edge in H. cbn in H. discriminate.
 Qed.
 
@@ -295,11 +295,11 @@ Lemma wsgi_2xx_implies_all_stored : forall relay bs tr s,
 Proof.
   intros relay bs tr s H C2. unfold wsgi_run, handoff, queue_enqueue in H.
   destruct (writes 0 bs) as [tr0 [outs|]] eqn:W.
-  - destruct (spawn_loop relay outs) as [att [rs|]] eqn:S; unfold wsgi_edge in H; cbn in H.
+  - destruct (spawn_loop relay outs) as [att [rs|x]] eqn:S; unfold wsgi_edge in H; cbn in H.
     + injection H as <- <-. exists tr0. split; [reflexivity|].
       destruct (wsgi_2xx_results _ C2) as (Hne & Hall).
       eapply queue_2xx_core; eauto.
-    + injection H as <- <-. vm_compute in C2. discriminate.
+    + destruct x; try discriminate; injection H as <- <-; vm_compute in C2; discriminate.
   - unfold wsgi_edge in H. cbn in H. discriminate.
 Qed.
 
@@ -316,29 +316,48 @@ Proof.
   unfold smtp_edge, wsgi_edge. cbn. repeat split; assumption.
 Qed.
 
+(* the exception that ends enqueue() is the outcome of one of the writes *)
+Lemma spawn_loop_raises : forall relay outs att x, spawn_loop relay outs = (att, inr x) ->
+  exists k, In (k, WExc x) outs.
+Proof.
+  induction outs as [|[k o] outs IH]; intros att x H; cbn in H; [discriminate|].
+  destruct o as [|a|y].
+  - destruct (spawn_loop relay outs) as [att' [rs'|x']] eqn:S; [discriminate|].
+    injection H as _ <-. destruct (IH _ _ eq_refl) as (k' & Hk). exists k'. right. exact Hk.
+  - destruct (spawn_loop relay outs) as [att' [rs'|x']] eqn:S; [discriminate|].
+    injection H as _ <-. destruct (IH _ _ eq_refl) as (k' & Hk). exists k'. right. exact Hk.
+  - injection H as _ <-. exists k. left. reflexivity.
+Qed.
+
+Definition smtp_err (c : code) : Prop := is_error c = true.
+Definition http_err (s : N) : Prop := s / 100 = 4 \/ s / 100 = 5.
+
 Lemma error_gives_4xx5xx : forall relay bs,
   ~ In Hang bs -> (exists b, In b bs /\ failed_write b = true) ->
-  (exists tr c, smtp_run relay bs = (tr, Replied c) /\ is_error c = true) /\
-  (exists tr s, wsgi_run relay bs = (tr, Replied s) /\ (s / 100 = 4 \/ s / 100 = 5)).
+  refused smtp_err (snd (smtp_run relay bs)) /\
+  refused http_err (snd (wsgi_run relay bs)) /\
+  (snd (smtp_run relay bs) = Dropped \/ snd (wsgi_run relay bs) = Dropped ->
+   exists b, In b bs /\ base_only b = true).
 Proof.
   intros relay bs NH (b & Hb & Hf).
   destruct (writes_complete bs 0 NH) as (outs & E).
   unfold smtp_run, wsgi_run, handoff, queue_enqueue.
   destruct (writes 0 bs) as [tr0 r] eqn:W. cbn in E. subst r.
-  destruct (spawn_loop relay outs) as [att [rs|]] eqn:S; unfold smtp_edge, wsgi_edge; cbn.
-  - pose proof (writes_outs _ _ _ _ W) as F1.
-    pose proof (spawn_loop_results _ _ _ _ S) as F2.
+  pose proof (writes_outs _ _ _ _ W) as F1.
+  destruct (spawn_loop relay outs) as [att [rs|x]] eqn:S; unfold smtp_edge, wsgi_edge; cbn.
+  - pose proof (spawn_loop_results _ _ _ _ S) as F2.
     destruct (Forall2_In_l _ _ _ _ _ _ F1 Hb) as ([k o] & Hko & (d & ->)).
     destruct (Forall2_In_l _ _ _ _ _ _ F2 Hko) as ([e w] & Hew & Hr).
     assert (Hw : is_failure w = true).
     { cbn in Hr. inversion Hr; subst; cbn in *; [discriminate|reflexivity]. }
     destruct (error_results rs) as (E1 & E2); [right; eauto|].
-    split; eauto.
-  - split.
-    + exists (tr0 ++ [EvRaise] ++ [EvSmtpReply code_421]), code_421.
-      rewrite <- app_assoc. split; reflexivity.
-    + exists (tr0 ++ [EvRaise] ++ [EvHttpStatus 500]), 500.
-      rewrite <- app_assoc. split; [reflexivity|right; reflexivity].
+    split; [exact E1|]. split; [exact E2|]. intros [X|X]; discriminate.
+  - destruct (spawn_loop_raises _ _ _ _ S) as (k & Hk).
+    destruct (Forall2_In_r _ _ _ _ _ _ F1 Hk) as (b' & Hb' & (d & Eb)). cbn in Eb.
+    destruct x; cbn.
+    + split; [reflexivity|]. split; [right; reflexivity|]. intros [X|X]; discriminate.
+    + split; [reflexivity|]. split; [exact I|]. intros _. exists b'. subst b'. split; [exact Hb'|reflexivity].
+    + split; [exact I|]. split; [exact I|]. intros _. exists b'. subst b'. split; [exact Hb'|reflexivity].
 Qed.
 
 (* ------------------------------------------------------------- ProxyQueue *)
@@ -389,16 +408,16 @@ Lemma proxy_2xx_implies_all_relayed : forall rr,
 Proof.
   intros rr. split.
   - intros tr c H C2. unfold smtp_proxy_run, handoff, smtp_edge in H.
-    destruct (q_res (proxy_enqueue rr)) as [rs| |] eqn:Q.
+    destruct (q_res (proxy_enqueue rr)) as [rs|x|] eqn:Q.
     + injection H as <- <-. destruct (smtp_2xx_results _ C2) as (_ & Hall).
       destruct (proxy_ok_core _ _ Q Hall) as (Hok & ->). split; [exact Hok|reflexivity].
-    + injection H as <- <-. discriminate.
+    + destruct x; try discriminate; injection H as <- <-; discriminate.
     + discriminate.
   - intros tr s H C2. unfold wsgi_proxy_run, handoff, wsgi_edge in H.
-    destruct (q_res (proxy_enqueue rr)) as [rs| |] eqn:Q.
+    destruct (q_res (proxy_enqueue rr)) as [rs|x|] eqn:Q.
     + injection H as <- <-. destruct (wsgi_2xx_results _ C2) as (_ & Hall).
       destruct (proxy_ok_core _ _ Q Hall) as (Hok & ->). split; [exact Hok|reflexivity].
-    + injection H as <- <-. vm_compute in C2. discriminate.
+    + destruct x; try discriminate; injection H as <- <-; vm_compute in C2; discriminate.
     + discriminate.
 Qed.
 
@@ -489,9 +508,9 @@ Example ex_failures :
   snd (smtp_run false [Done 0 WId; Done 2 (WQErr (Some r250))]) = Replied code_451 /\
   snd (smtp_run false [Done 0 (WQErr (Some r550)); Done 0 WId]) = Replied [53; 53; 48] /\
   snd (wsgi_run false [Done 0 (WQErr (Some r550)); Done 0 WId]) = Replied 500 /\
-  snd (smtp_run true [Done 0 WId; Done 0 WExc; Done 0 WId]) = Replied code_421 /\
-  snd (wsgi_run true [Done 0 WId; Done 0 WExc; Done 0 WId]) = Replied 500 /\
-  q_attempts (queue_enqueue true [Done 0 WId; Done 0 WExc; Done 0 WId]) = [0].
+  snd (smtp_run true [Done 0 WId; Done 0 (WExc ExException); Done 0 WId]) = Replied code_421 /\
+  snd (wsgi_run true [Done 0 WId; Done 0 (WExc ExException); Done 0 WId]) = Replied 500 /\
+  q_attempts (queue_enqueue true [Done 0 WId; Done 0 (WExc ExException); Done 0 WId]) = [0].
 Proof. repeat split. Qed.
 
 Example ex_blocked :
@@ -531,31 +550,31 @@ Proof.
   intros relay bs. unfold queue_enqueue.
   pose proof (writes_no_reply bs 0) as NR.
   destruct (writes 0 bs) as [tr0 [outs|]]; cbn in NR; [|exact NR].
-  destruct (spawn_loop relay outs) as [att [rs|]]; cbn; [exact NR|].
-  apply reply_free_app; [exact NR|]. intros e [<-|[]]. reflexivity.
+  destruct (spawn_loop relay outs) as [att [rs|x]]; cbn; [exact NR|].
+  apply reply_free_app; [exact NR|]. intros e0 [<-|[]]. reflexivity.
 Qed.
 
 (* shape of one message's run: a reply-free part, then at most the answer *)
 Lemma smtp_run_shape : forall relay bs,
   exists pre, reply_free pre /\
-    ((fst (smtp_run relay bs) = pre /\ snd (smtp_run relay bs) = NoReply) \/
+    ((fst (smtp_run relay bs) = pre /\ (snd (smtp_run relay bs) = NoReply \/ snd (smtp_run relay bs) = Dropped)) \/
      (exists c, fst (smtp_run relay bs) = pre ++ [EvSmtpReply c] /\ snd (smtp_run relay bs) = Replied c)).
 Proof.
   intros relay bs. pose proof (queue_trace_reply_free relay bs) as RF.
   unfold smtp_run, handoff, smtp_edge.
   exists (q_trace (queue_enqueue relay bs)). split; [exact RF|].
-  destruct (q_res (queue_enqueue relay bs)); cbn; eauto.
+  destruct (q_res (queue_enqueue relay bs)) as [rs|x|]; [| destruct x |]; cbn; eauto.
 Qed.
 
 Lemma wsgi_run_shape : forall relay bs,
   exists pre, reply_free pre /\
-    ((fst (wsgi_run relay bs) = pre /\ snd (wsgi_run relay bs) = NoReply) \/
+    ((fst (wsgi_run relay bs) = pre /\ (snd (wsgi_run relay bs) = NoReply \/ snd (wsgi_run relay bs) = Dropped)) \/
      (exists s, fst (wsgi_run relay bs) = pre ++ [EvHttpStatus s] /\ snd (wsgi_run relay bs) = Replied s)).
 Proof.
   intros relay bs. pose proof (queue_trace_reply_free relay bs) as RF.
   unfold wsgi_run, handoff, wsgi_edge.
   exists (q_trace (queue_enqueue relay bs)). split; [exact RF|].
-  destruct (q_res (queue_enqueue relay bs)); cbn; eauto.
+  destruct (q_res (queue_enqueue relay bs)) as [rs|x|]; [| destruct x |]; cbn; eauto.
 Qed.
 
 (* an answer event occurs at most once, at the end *)
@@ -850,3 +869,15 @@ Example ex_session :
                   SData 354 550 250; SMail 250; SRcpt 7 250; SData 354 250 451]) =
   [([1; 3; 4], [1; 3; 4]); ([7], [7])].
 Proof. reflexivity. Qed.
+
+(* every exception family a write can end with: never an acknowledgement, never an attempt *)
+Example ex_exception_families :
+  snd (smtp_run true [Done 0 WId; Done 0 (WExc ExException)]) = Replied code_421 /\
+  snd (wsgi_run true [Done 0 WId; Done 0 (WExc ExException)]) = Replied 500 /\
+  snd (smtp_run true [Done 0 WId; Done 0 (WExc ExTimeout)]) = Replied code_421 /\
+  snd (wsgi_run true [Done 0 WId; Done 0 (WExc ExTimeout)]) = Dropped /\
+  snd (smtp_run true [Done 1 (WExc ExBase); Done 0 WId]) = Dropped /\
+  snd (wsgi_run true [Done 1 (WExc ExBase); Done 0 WId]) = Dropped /\
+  q_attempts (queue_enqueue true [Done 0 WId; Done 0 (WExc ExTimeout); Done 0 WId]) = [0] /\
+  base_only (Done 0 (WExc ExTimeout)) = true /\ failed_write (Done 0 (WExc ExBase)) = true.
+Proof. repeat split. Qed.
